@@ -1,5 +1,7 @@
 package main
 
+import "golang.org/x/tools/go/ssa"
+
 func init() { props["C09"] = c09 }
 
 func c09(r *Report) propMeta {
@@ -61,7 +63,7 @@ func c09(r *Report) propMeta {
 	r.Exists("partial-fisher-yates-draw", grm, CallEff("Rng.NextUint64"), 1)
 	r.ShuffleShape("partial-fisher-yates", grm)
 	r.Exists("sorted-by-id", grm, CallEff("sort.Slice", "call:builtin.append"), 1)
-	r.Exists("sorted-by-id-comparator", grm+"$1", RetValEff(0, "^binop:<", "field:Member.ID"), 1)
+	r.RetPred("sorted-by-id-comparator", grm+"$1", 0, Cond{Op: "LSS", A: []string{"^field:Member.ID", "param:i"}, B: []string{"^field:Member.ID", "param:j"}, Want: true, Desc: "selected[i].ID < selected[j].ID"}, 1)
 	nr := "pkg/bandrng.NewRng"
 	r.ArgHas("drbg-sha256", nr, "drbg.New", 0, 1, "const:5")
 	for i, p := range []string{"entropyInput", "nonce", "personalizationString"} {
@@ -78,12 +80,19 @@ func c09(r *Report) propMeta {
 	})
 	r.Gate("members-stored-only-if-distinct", cg, CallEff("Keeper.SetMember"), []Cond{{Op: "BOOL", A: []string{"^lookup", "call:AccAddress.String", "param:members"}, Want: false, Desc: "address not seen before"}}, GateOpts{LoopAll: true, AnySite: true})
 
+	r.Rule("C09.R6", "E8 the selection paths keep no process-local state")
+	r.Lint("selection-lint", []*ssa.Function{r.W.Fn("x/oracle/keeper.Keeper.PrepareRequest"), r.W.Fn(tK + "RequestSigning"), r.W.Fn(tK + "InitiateNewSigningRound")}, c02LintAllow, 40)
+
+	// eligibility = active with a queued nonce: the DE queue arithmetic of C05 decides who is eligible
+	r.Include("C05", "C05.R4")
+
 	return propMeta{
 		Decided: []string{
 			"R1 validators enter the candidate set only inside the bonded-validator iterator and only if oracle-active; members only if IsActive and HasDE; `too few` is an error before any random number is drawn; exactly `size` / `threshold` picks are requested",
 			"R2 ChooseSome/ChooseOne/ChooseSomeMaxWeight never store into, append onto a re-slice of, copy into or sort memory that may alias the `weights` parameter, and every try receives that same parameter; one DRBG draw per pick; picked index removed from the remaining copy",
 			"R3 DRBG(seed = rolling seed, nonce = request id / signing nonce parameter, personalisation = chain id), SHA-256, 8-byte big-endian draws; signer selection is draw % (n-i), swap with position n-i-1, then sort by member id",
 			"R5 tss CreateGroup rejects an empty, an over-large and a member list with a repeated ACCOUNT (compared after decoding, so two spellings of one bech32 address count as one) before any member is stored: one participant cannot hold two seats of a committee (seed C09-5)",
+			"R6 the determinism lint (E8, including writes to process-local memory held by keepers) over everything reachable from PrepareRequest / RequestSigning / InitiateNewSigningRound: the committee is a function of committed state only (seed C09-7: a params cache that survives rolled-back updates)",
 		},
 		Undecided: []string{"bit-for-bit conformance of the sampler to its specification and distinctness as a consequence of the arithmetic (needs an independent implementation over many inputs: another technique family) — the larger half of C09"},
 		Assume:    []string{"oasis drbg HMAC-DRBG implementation", "staking iterator yields bonded validators"},
